@@ -19,6 +19,10 @@ for sid in sorted(plan):
     if only and sid not in only:
         continue
     for prop, tier in plan[sid]:
+        # follow /repo's HEAD (fix commits made while a batch is running)
+        head = subprocess.run(["git", "-C", "/repo", "rev-parse", "HEAD"], capture_output=True, text=True).stdout.strip()
+        subprocess.run(["git", "-C", WT, "checkout", "-q", "--", "."])
+        subprocess.run(["git", "-C", WT, "checkout", "-q", "--detach", head], check=True)
         if subprocess.run(["git", "-C", WT, "diff", "--quiet"]).returncode != 0:
             sys.exit("scratch worktree not clean")
         a = subprocess.run(["git", "-C", WT, "apply", os.path.join(VERIF, "seeded", sid, "patch.diff")], capture_output=True, text=True)
